@@ -49,7 +49,13 @@ func NewKey(ns string, i int) Key {
 }
 
 // Quiet turns the repository's logging down to critical only.
-func Quiet() { log.Setup(log.LevelCrit, false, false) }
+func Quiet() {
+	if os.Getenv("VERIF_LOG") != "" {
+		log.Setup(log.LevelInfo, false, false)
+		return
+	}
+	log.Setup(log.LevelCrit, false, false)
+}
 
 // World is the static configuration shared by all nodes of a scenario.
 type World struct {
